@@ -13,6 +13,7 @@ import (
 	"testing"
 	"testing/synctest"
 	"time"
+	"unsafe"
 )
 
 // Check is what a per-property test package hands to WorkerMain.
@@ -145,6 +146,8 @@ type workerResult struct {
 	Runs         int64            `json:"runs"`
 	Steps        int64            `json:"steps"`
 	Inconclusive int64            `json:"inconclusive"`
+	Stalls       int64            `json:"stalled_runs"`
+	StallLimit   bool             `json:"stall_limit_reached"`
 	NonTrivial   int64            `json:"nontrivial_runs"`
 	Distinct     int64            `json:"distinct_nontrivial_local"`
 	Rechecked    int64            `json:"determinism_rechecks"`
@@ -168,6 +171,8 @@ type replayOutcome struct {
 }
 
 type worker struct {
+	dumpBuf  []byte
+	stalls   int64
 	t        *testing.T
 	c        *Check
 	stats    *Stats
@@ -230,6 +235,133 @@ func runBubble(t *testing.T, f func()) (leftover bool, pv any, stack string) {
 	return false, r.pv, r.stack
 }
 
+// execBubble runs the check inside a bubble and watches it from outside.  If
+// the scheduler makes no progress for a while and the goroutine dump shows
+// that nothing in the bubble can run while some goroutine waits for a mutex
+// (a wait the bubble does not count as durable, so synctest.Wait never
+// returns), the run has stalled: the bubble is abandoned with its goroutines
+// left blocked, and the run is reported as inconclusive - unless the
+// workload's OnStall turns the situation into a verdict.  Such a stall is an
+// artefact of cooperative scheduling (the holder of the mutex is parked at a
+// yield and would release it if it could be scheduled), not evidence against
+// the code under test.
+func (w *worker) execBubble(rc *RunCtx) (stalled *RunCtx) {
+	type res struct {
+		pv    any
+		stack string
+	}
+	done := make(chan res, 1)
+	go func() {
+		_, pv, stack := runBubble(w.t, func() { w.c.Run(rc) })
+		done <- res{pv: pv, stack: stack}
+	}()
+	tick := time.NewTicker(20 * time.Millisecond)
+	defer tick.Stop()
+	var last uint64
+	idle := 0
+	for {
+		select {
+		case r := <-done:
+			if r.pv != nil && rc.HarnessErr == "" {
+				rc.HarnessErr = fmt.Sprintf("panic in bubble root: %v\n%s", r.pv, r.stack)
+			}
+
+			return nil
+		case <-tick.C:
+		}
+		k := loadCurrent()
+		if k == nil {
+			idle = 0
+
+			continue
+		}
+		if p := k.Progress(); p != last {
+			last, idle = p, 0
+
+			continue
+		}
+		idle++
+		if idle < 5 {
+			continue
+		}
+		if w.dumpBuf == nil {
+			w.dumpBuf = make([]byte, 16<<20)
+		}
+		dump := string(w.dumpBuf[:runtime.Stack(w.dumpBuf, true)])
+		info := analyseStall(dump)
+		if info == nil {
+			continue // something is still running: slow, not stalled
+		}
+		raceAcquire(unsafe.Pointer(&k.stallToken))
+		out := &RunCtx{T: w.t, Tape: rc.Tape, Stats: w.stats, Tier: w.tier, Inconclusive: "stalled: a goroutine waits for a mutex whose holder is parked at a yield"}
+		if k.OnStall != nil {
+			out.Violation = k.OnStall(info)
+		}
+		w.stalls++
+		storeCurrent(nil)
+
+		return out
+	}
+}
+
+// analyseStall inspects a dump of all goroutines.  It returns nil unless the
+// bubble whose root is waiting in Kernel.Run is completely blocked with at
+// least one goroutine in a wait that the bubble does not treat as durable.
+func analyseStall(dump string) *StallInfo {
+	blocks := strings.Split(dump, "\n\n")
+	// The current bubble is the one with the highest number (abandoned ones
+	// stay in the dump).
+	bubble, bubbleNo := "", -1
+	for _, b := range blocks {
+		if strings.Contains(b, "kernel.(*Kernel).Run(") || strings.Contains(b, "kernel.(*Kernel).Finish(") {
+			if i := strings.Index(b, "synctest bubble "); i >= 0 && strings.Contains(b[:strings.IndexByte(b, '\n')+1], "synctest.Wait") {
+				name := b[i : i+strings.IndexAny(b[i:], "]\n")]
+				if n, err := strconv.Atoi(strings.TrimPrefix(name, "synctest bubble ")); err == nil && n > bubbleNo {
+					bubble, bubbleNo = name, n
+				}
+			}
+		}
+	}
+	if bubble == "" {
+		return nil
+	}
+	info := &StallInfo{Dump: dump}
+	for _, b := range blocks {
+		nl := strings.IndexByte(b, '\n')
+		if nl < 0 || !strings.HasPrefix(b, "goroutine ") {
+			continue
+		}
+		head := b[:nl]
+		if !strings.Contains(head, bubble+"]") {
+			continue
+		}
+		var id uint64
+		for _, c := range head[len("goroutine "):] {
+			if c < '0' || c > '9' {
+				break
+			}
+			id = id*10 + uint64(c-'0')
+		}
+		lb := strings.IndexByte(head, '[')
+		state := head[lb+1:]
+		switch {
+		case strings.HasPrefix(state, "running"), strings.HasPrefix(state, "runnable"), strings.HasPrefix(state, "syscall"):
+			return nil
+		case strings.Contains(state, "(durable)"):
+			if strings.Contains(b, "kernel.(*Kernel).park(") {
+				info.Parked = append(info.Parked, id)
+			}
+		default:
+			info.MutexBlocked = append(info.MutexBlocked, id)
+		}
+	}
+	if len(info.MutexBlocked) == 0 {
+		return nil
+	}
+
+	return info
+}
+
 // exec executes one run on the given tape and attributes race reports to it.
 func (w *worker) exec(tape *Tape, keepLog bool) *RunCtx {
 	select {
@@ -238,9 +370,9 @@ func (w *worker) exec(tape *Tape, keepLog bool) *RunCtx {
 	}
 	rc := &RunCtx{T: w.t, Tape: tape, Stats: w.stats, Tier: w.tier, KeepLog: keepLog}
 	if w.c.Bubble {
-		_, pv, stack := runBubble(w.t, func() { w.c.Run(rc) })
-		if pv != nil && rc.HarnessErr == "" {
-			rc.HarnessErr = fmt.Sprintf("panic in bubble root: %v\n%s", pv, stack)
+		if stalled := w.execBubble(rc); stalled != nil {
+			// The bubble was abandoned; rc belongs to its frozen goroutines.
+			return stalled
 		}
 	} else {
 		func() {
@@ -395,8 +527,9 @@ func isStdFrame(fn string) bool {
 // signature must persist.
 func (w *worker) shrink(tape []uint32, sig string, budget int, deadline time.Time) (best []uint32, execs int) {
 	best = append([]uint32(nil), tape...)
+	stallsAtStart := w.stalls
 	test := func(cand []uint32) bool {
-		if execs >= budget || time.Now().After(deadline) {
+		if execs >= budget || time.Now().After(deadline) || w.stalls-stallsAtStart > 40 {
 			return false
 		}
 		execs++
@@ -649,6 +782,7 @@ func (w *worker) explore(res *workerResult) {
 		if rc.Inconclusive != "" {
 			res.Inconclusive++
 		}
+		res.Stalls = w.stalls
 		if rc.Violation != nil {
 			if rc.Violation.Class == "race" {
 				res.RaceReports++
@@ -678,7 +812,13 @@ func (w *worker) explore(res *workerResult) {
 				"seed": seed, "run": i, "tape_len": len(rc.Tape.Out), "events": capLines(rc.Log, 120),
 			})
 		}
-		if recheck > 0 && (i/stride)%recheck == 0 && !rc.Nondet {
+		if w.stalls > 300 {
+			// Every stalled run leaves a blocked bubble behind; enough.
+			res.StallLimit = true
+
+			break
+		}
+		if recheck > 0 && (i/stride)%recheck == 0 && !rc.Nondet && rc.Inconclusive == "" {
 			// Determinism spot check: replaying the recorded tape must give
 			// the same event log and verdict.
 			rc2 := w.exec(ReplayTape(rc.Tape.Out), false)
